@@ -41,10 +41,14 @@ func (c *innerConn) SetWriteDeadline(time.Time) error { return nil }
 func (c *innerConn) Close() (err error) {
 	c.closes++
 	if c.closes > 1 {
-		c.w.s.Failf("C18/double-inner-close", "underlying connection closed twice",
-			"conn %d: underlying Close called %d times", c.id, c.closes)
+		// Not a violation by itself: the property speaks of the slot, which
+		// the counting oracles watch.
+		c.w.s.Probe("underlying-conn-closed-twice")
 	}
-	c.w.s.Logf("conn %d: underlying close", c.id)
+	c.w.s.Logf("conn %d: underlying close #%d begins", c.id, c.closes)
+
+	// Closing a real connection takes time: another task may run meanwhile.
+	c.w.s.Yield("underlying-close")
 
 	return nil
 }
